@@ -32,6 +32,12 @@ def mon_migrated(sc, steps, final):
                     sn = monitors.Snap(sc, obs)
                     if o in sn.desired_set:
                         bad.append("reconcile %d after the migration deleted pod %s which is at the update revision" % (k + 1, c["name"]))
+    if sc.get("pre_gc"):
+        for k, obs in enumerate(recs):
+            for c in obs["calls"]:
+                if c["verb"] in ("patch", "update", "delete") and c["res"] == "controllerrevisions" and c.get("name") in revs and not c.get("err"):
+                    bad.append("reconcile %d touched ControllerRevision %s, which the built-in set still controls" % (k + 1, c["name"]))
+        return bad
     if recs and recs[0]["result"] == "ok":
         first = recs[0]["calls"]
         adopted = {c["name"] for c in first if c["verb"] == "patch" and c["res"] == "controllerrevisions" and not c.get("err")}
@@ -84,6 +90,16 @@ def run(ctx, depth):
     scs = []
     for _ in range(m):
         sc = gen.gen_migrated(ctx.rng)
+        if ctx.rng.random() < 0.25:
+            # the window between helper.Upgrade and the garbage collector: the built-in set is gone, its revisions and pods
+            # still carry its controller reference (same name, another UID) — nothing of them may be adopted, and the revision
+            # the template needs exists under the very name the controller would give it
+            sc["pre_gc"] = True
+            for w in (sc["api"], sc["cache"]):
+                for r in w["revs"]:
+                    r["owner"] = dict(rc.STALE)
+                for p in w["pods"]:
+                    p["owner"] = dict(rc.STALE)
         sc["ops"] = [{"op": "reconcile"}, {"op": "refresh", "what": "all"}, {"op": "reconcile"}]
         scs.append(sc)
     outs = core.run_harness_parallel("reconcile", scs, shards=16)
